@@ -40,6 +40,7 @@ CAT = {
     7: ST(("u", "unit", False), ("n", {"newtype": U(16)}, False)),
     8: ST(("d", U(32), True), ("x", "string", False)),
     9: ST(("w", {"seq": O(U(16))}, False), ("z", I(64), False)),
+    13: ST(("user-name", "string", False), ("a b", U(8), False), ("ü", O("string"), False), ("k=&%", "bool", False)),          # keys the writer has to escape (serde rename)
     11: ST(("m", E2, False), ("o", O(E2), False), ("v", {"seq": E2}, False)),
     10: ST(("h", U(64), False), ("g", I(16), False), ("k", I(32), False), ("l", O(U(64)), False), ("m", {"seq": U(64)}, False)),   # with 0-9: every integer width the codec has a method for
 }
@@ -198,10 +199,10 @@ def generate(rng, tier):
     n = 6000 if tier == 'quick' else 150000
     out = []
     for _ in range(n):
-        tid = rng.randrange(len(CAT))
+        tid = rng.choice(list(CAT))
         out.append(de_case(tid, gen_raw(rng) if rng.random() < 0.15 else gen_structured(rng, tid)))
     for _ in range(n):
-        tid = rng.randrange(len(CAT))
+        tid = rng.choice(list(CAT))
         out.append(rt_case(tid, gen_value(rng, CAT[tid])))
     for _ in range(n // 10):          # floats round-trip too (judged on the implementation alone)
         out.append({'case': {'tid': 12, 'ty': FLOAT_T, 'value': gen_float_struct(rng), 'firstFlag': True, 'nomodel': True}, 'stream': 'value'})
